@@ -409,10 +409,19 @@ func freePort() int {
 
 // startServer launches the whispertool server binary and waits until it accepts connections.
 func startServer(bin, base string, env []string) (*exec.Cmd, string, *bytes.Buffer, error) {
+	return startServerIn(bin, base, "", env)
+}
+
+// startServerIn starts the server with the given -base argument ("" = the flag's default) in working directory dir.
+func startServerIn(bin, base, dir string, env []string) (*exec.Cmd, string, *bytes.Buffer, error) {
 	for try := 0; try < 5; try++ {
 		port := freePort()
 		addr := fmt.Sprintf("127.0.0.1:%d", port)
 		cmd := exec.Command(bin, "server", "-addr", addr, "-base", base)
+		if base == "" {
+			cmd = exec.Command(bin, "server", "-addr", addr)
+		}
+		cmd.Dir = dir
 		var buf bytes.Buffer
 		cmd.Stdout = &buf
 		cmd.Stderr = &buf
